@@ -9,7 +9,7 @@ section
 variable (π : Par) (s : Bool) (lvl : Level) (me : Nat) (R : FS → FS → Prop) (strong : Prop)
 
 /-- every result file present holds the value of the live source -/
-def LiveOut (fs : FS) : Prop := ∀ a i d, fs.get (pOut a) = some (.file i d) → d = π.cd.pickle ⟨π.ver, a⟩
+def LiveOut (fs : FS) : Prop := ∀ a i d, fs.get (pOut a) = some (.file i d) → ∃ g, d = π.cd.pickle ⟨π.ver, a, g⟩
 
 /-- `func_code.py` is only completed (made equal to the text of the live source) when every result present is of the
 live source; otherwise only a strict prefix is written onto the empty file (a torn write) -/
@@ -442,6 +442,10 @@ structure CfgOK (π : Par) (me : Nat) (c : Cfg) : Prop where
   ver : c.ver = π.ver
   me : c.me = me
   legacy : c.legacy = false
+  /-- … and is the code, not one of the seeded variants -/
+  mfirst : c.metadataFirst = false
+  keeprej : c.keepRejected = false
+  skipcb : c.skipCallbackWithoutMetadata = false
 
 theorem configure_eq (c : Cfg) : configure c =
     (exists_ pLoc).bind fun e => (if e then Prog.ret () else mkdirp pLoc).bind fun _ => inplace pGit c.codec.gitText := rfl
